@@ -710,6 +710,14 @@ func knownLeaf(v cty.Value, path string) string {
 	return ""
 }
 
+func partKeys(parts []hcldec.ObjectSpec) [][]string {
+	var out [][]string
+	for _, p := range parts {
+		out = append(out, gen.SortedKeys(p))
+	}
+	return out
+}
+
 func c18Case(c *core.Case) {
 	c18RefCounter = 0
 	shapeMode = false
@@ -897,6 +905,49 @@ func c18Case(c *core.Case) {
 		c.Count("forms-agreed:both-report-errors")
 	} else {
 		c.Count("forms-agreed:equal-values")
+	}
+	// "under any specification" includes one applied piecewise: two partial
+	// decodes and a strict decode of what is left, on both forms
+	if obj, ok := spec.(hcldec.ObjectSpec); ok && len(obj) >= 2 {
+		parts := []hcldec.ObjectSpec{{}, {}, {}}
+		for _, k := range gen.SortedKeys(obj) {
+			parts[r.Intn(3)][k] = obj[k]
+		}
+		chain := func(b hcl.Body) ([]cty.Value, bool) {
+			var vals []cty.Value
+			errs := false
+			for i, p := range parts {
+				var v cty.Value
+				var d hcl.Diagnostics
+				if i < 2 {
+					v, b, d = hcldec.PartialDecode(b, p, ctx)
+				} else {
+					v, d = hcldec.Decode(b, p, ctx)
+				}
+				c.Evals(1)
+				vals = append(vals, v)
+				errs = errs || d.HasErrors()
+			}
+			return vals, errs
+		}
+		dv, de := chain(dynblock.Expand(df.Body, ctx))
+		wv, we := chain(wf.Body)
+		if de != we {
+			c.Violation("piecewise/error-ness-differs", fmt.Sprintf("decoding in three pieces (partial, partial, strict on the rest; spec split %v): dynamic form errors=%v, written-out form errors=%v", partKeys(parts), de, we), nil)
+			return
+		}
+		if !we {
+			for i := range dv {
+				if !sameVal(unmarked(dv[i]), unmarked(wv[i])) {
+					c.Violation("piecewise/value-differs", fmt.Sprintf("decoding in three pieces (spec split %v): piece %d of the dynamic form is %s, of the written-out form %s", partKeys(parts), i, valStr(dv[i]), valStr(wv[i])), nil)
+					return
+				}
+			}
+		}
+		if !we && wdiags.HasErrors() || we && !wdiags.HasErrors() {
+			c.Count("piecewise:error-ness-differs-from-one-step(both forms alike)")
+		}
+		c.Count("piecewise-decodes-agreed")
 	}
 	// expansion under a context pruned to the reported expansion variables
 	roots := rootsOf(dynblock.ExpandVariablesHCLDec(df.Body, spec))
